@@ -36,10 +36,41 @@ func init() {
 		"(*os.File).ReadFrom": "FileReadFrom",
 		"(*os.File).WriteTo":  "FileWriteTo",
 		"github.com/shirou/gopsutil/disk.UsageWithContext": "DiskUsage",
+		"gopkg.in/yaml.v2.NewDecoder":         "YamlNewDecoder",
+		"(*gopkg.in/yaml.v2.Decoder).Decode":  "YamlDecode",
+		"github.com/dgraph-io/badger/v3.Open":                          "BadgerOpen",
+		"github.com/dgraph-io/badger/v3.DefaultOptions":                "BadgerDefaultOptions",
+		"(*github.com/dgraph-io/badger/v3.DB).Update":                  "DBUpdate",
+		"(*github.com/dgraph-io/badger/v3.DB).View":                    "DBView",
+		"(*github.com/dgraph-io/badger/v3.DB).Close":                   "DBClose",
+		"(*github.com/dgraph-io/badger/v3.DB).RunValueLogGC":           "DBRunValueLogGC",
+		"(*github.com/dgraph-io/badger/v3.Txn).Set":                    "TxnSet",
+		"(*github.com/dgraph-io/badger/v3.Txn).Delete":                 "TxnDelete",
+		"(*github.com/dgraph-io/badger/v3.Txn).Get":                    "TxnGet",
+		"(*github.com/dgraph-io/badger/v3.Txn).NewIterator":            "TxnNewIterator",
+		"(*github.com/dgraph-io/badger/v3.Iterator).Seek":              "IterSeek",
+		"(*github.com/dgraph-io/badger/v3.Iterator).ValidForPrefix":    "IterValidForPrefix",
+		"(*github.com/dgraph-io/badger/v3.Iterator).Next":              "IterNext",
+		"(*github.com/dgraph-io/badger/v3.Iterator).Item":              "IterItem",
+		"(*github.com/dgraph-io/badger/v3.Iterator).Close":             "IterClose",
+		"(*github.com/dgraph-io/badger/v3.Item).Key":                   "ItemKey",
+		"(*github.com/dgraph-io/badger/v3.Item).Value":                 "ItemValue",
 	} {
 		redirects[lib] = envPkg + "." + stub
 	}
+	// redirects that apply only while a harness has switched the named mode on
+	for lib, stub := range map[string]string{
+		"(*github.com/glebziz/fs_db/internal/utils/wpool.Pool).Run":   "PoolRun",
+		"(*github.com/glebziz/fs_db/internal/utils/wpool.Pool).Send":  "PoolSend",
+		"(*github.com/glebziz/fs_db/internal/utils/wpool.Pool).Sched": "PoolSched",
+		"(*github.com/glebziz/fs_db/internal/utils/wpool.Pool).Stop":  "PoolStop",
+	} {
+		redirects[lib] = envPkg + "." + stub
+		redirectMode[lib] = "seqpool"
+	}
 }
+
+var redirectMode = map[string]string{}
 
 var intrinsics = map[string]intrinsicFn{}
 
@@ -336,6 +367,21 @@ func init() {
 		m.w.ex.bounds[m.mustStr(a[0])] = m.concreteInt(a[1], "bound")
 		m.w.ex.mu.Unlock()
 		return nil, true
+	})
+	nd("SetMode", func(m *Machine, th *Thread, fn *ssa.Function, a []Value) (Value, bool) {
+		if m.modes == nil {
+			m.modes = map[string]bool{}
+		}
+		m.modes[m.mustStr(a[0])] = a[1].(*Term).IsTrue()
+		return nil, true
+	})
+	nd("SymLen", func(m *Machine, th *Thread, fn *ssa.Function, a []Value) (Value, bool) {
+		s := a[0].(SliceV)
+		s.symLen = a[1].(*Term)
+		if s.symLen.op == OpConst {
+			s.symLen = nil
+		}
+		return s, true
 	})
 	nd("FreshUUID", func(m *Machine, th *Thread, fn *ssa.Function, a []Value) (Value, bool) {
 		m.uuidCount++
